@@ -24,14 +24,16 @@ def _init(repo_root):
     warnings.simplefilter('ignore')
 
 
-def pmap(func, items, repo_root, procs=14, chunksize=None):
+def pmap(func, items, repo_root, procs=14, chunksize=None, timeout=3000):
+    from concurrent.futures import ProcessPoolExecutor
     items = list(items)
     if not items:
         return []
     ctx = mp.get_context('spawn')
     procs = max(1, min(procs, len(items)))
-    with ctx.Pool(procs, initializer=_init, initargs=(repo_root,)) as pool:
-        return pool.map(func, items, chunksize=chunksize or max(1, len(items) // (procs * 4)))
+    with ProcessPoolExecutor(max_workers=procs, mp_context=ctx, initializer=_init, initargs=(repo_root,)) as ex:
+        futs = [ex.submit(func, it) for it in items]
+        return [f.result(timeout=timeout) for f in futs]
 
 
 def result(evaluations, nontrivial, rule, samples, violations, exhaustive=False, parts=None, bounds=''):
@@ -57,3 +59,27 @@ def merge(results):
     out['rule'] = ' || '.join(rules)
     out['bounds'] = ' || '.join(bounds)
     return out
+
+
+class CaseTimeout(Exception):
+    pass
+
+
+class time_limit:
+    """per-case wall-clock limit for calls into the real code (a mutated function may not terminate)"""
+    def __init__(self, seconds):
+        self.seconds = seconds
+
+    def __enter__(self):
+        import signal
+
+        def handler(signum, frame):
+            raise CaseTimeout()
+        self.old = signal.signal(signal.SIGALRM, handler)
+        signal.alarm(self.seconds)
+
+    def __exit__(self, *exc):
+        import signal
+        signal.alarm(0)
+        signal.signal(signal.SIGALRM, self.old)
+        return False
